@@ -6,10 +6,14 @@ namespace Driver
 
 structure State where
   c08 : C08.St := {}
+  c01 : C01.St := {}
 
 def step (st : State) (line : String) : State × String :=
   match toks line with
   | "c08" :: rest => let (s, o) := C08.step st.c08 rest; ({ st with c08 := s }, o)
+  | "c01" :: "hist.new" :: rest => let (s, o) := C01.stepSt st.c01 ("hist.new" :: rest); ({ st with c01 := s }, o)
+  | "c01" :: "hist.add" :: rest => let (s, o) := C01.stepSt st.c01 ("hist.add" :: rest); ({ st with c01 := s }, o)
+  | "c01" :: "dproof" :: rest => let (s, o) := C01.stepSt st.c01 ("dproof" :: rest); ({ st with c01 := s }, o)
   | "c01" :: rest => (st, C01.step rest)
   | ["sha", h] => (st, match Bytes.ofHex h with | some b => Bytes.toHex (Sha256.sum b) | none => "bad-op")
   | _ => (st, "bad-op")
